@@ -263,27 +263,27 @@ fn command_headers(objs: &Value) -> CommandHeaders {
     b.build()
 }
 
-struct Run {
-    clock: Clock,
-    rec: Recorder,
-    sess: Arc<Mutex<Vec<(i64, String)>>>,
-    done: Arc<Mutex<Vec<(i64, Value)>>>,
-    channel: MasterChannel,
-    assocs: Vec<(u16, AssociationHandle)>,
-    polls: Arc<Mutex<Vec<(u64, PollHandle)>>>,
-    pipes: tokio::sync::mpsc::UnboundedSender<shim::Pipe>,
-    task: tokio::task::JoinHandle<()>,
-    conn: Option<Conn>,
-    intern: Interner,
-    maddr: u16,
-    time_base: Arc<Mutex<Option<u64>>>,
-    last_req: Option<Vec<u8>>,
-    last_req_dst: u16,
-    dead: bool,
+pub struct Run {
+    pub clock: Clock,
+    pub rec: Recorder,
+    pub sess: Arc<Mutex<Vec<(i64, String)>>>,
+    pub done: Arc<Mutex<Vec<(i64, Value)>>>,
+    pub channel: MasterChannel,
+    pub assocs: Vec<(u16, AssociationHandle)>,
+    pub polls: Arc<Mutex<Vec<(u64, PollHandle)>>>,
+    pub pipes: tokio::sync::mpsc::UnboundedSender<shim::Pipe>,
+    pub task: tokio::task::JoinHandle<()>,
+    pub conn: Option<Conn>,
+    pub intern: Interner,
+    pub maddr: u16,
+    pub time_base: Arc<Mutex<Option<u64>>>,
+    pub last_req: Option<Vec<u8>>,
+    pub last_req_dst: u16,
+    pub dead: bool,
 }
 
 impl Run {
-    async fn new(cfg: &Value) -> Run {
+    pub async fn new(cfg: &Value) -> Run {
         let clock = Clock::new();
         let rec = Recorder::new(clock);
         let maddr = cfg["maddr"].as_u64().unwrap_or(1) as u16;
@@ -364,7 +364,7 @@ impl Run {
         self.assocs.iter().find(|x| x.0 == addr).map(|x| x.1.clone())
     }
 
-    fn collect(&mut self, line: &mut Map<String, Value>) {
+    pub fn collect(&mut self, line: &mut Map<String, Value>) {
         let mut tx = Vec::new();
         let mut ltx = Vec::new();
         if let Some(conn) = self.conn.as_mut() {
@@ -513,7 +513,7 @@ impl Run {
         true
     }
 
-    async fn step(&mut self, st: &Value) -> Value {
+    pub async fn step(&mut self, st: &Value) -> Value {
         let mut line = Map::new();
         let k = st["k"].as_str().unwrap_or("").to_string();
         line.insert("k".into(), json!(k));
